@@ -283,10 +283,15 @@ func diagStrings(d hcl.Diagnostics) []string {
 	return out
 }
 
-// formBody parses the files of a form and combines them.
-func formBody(f *Form) (hcl.Body, hcl.Diagnostics) {
-	var files []*hcl.File
-	var diags hcl.Diagnostics
+// parsedForm: the files of a form, parsed once; both decoders get their own merged /
+// expanded body on top of the same (immutable) file bodies.
+type parsedForm struct {
+	files []*hcl.File
+	diags hcl.Diagnostics
+}
+
+func parseForm(f *Form) *parsedForm {
+	p := &parsedForm{}
 	for _, ft := range f.Files {
 		var file *hcl.File
 		var d hcl.Diagnostics
@@ -295,50 +300,52 @@ func formBody(f *Form) (hcl.Body, hcl.Diagnostics) {
 		} else {
 			file, d = hclsyntax.ParseConfig([]byte(ft.Text), ft.Name, hcl.Pos{Line: 1, Column: 1})
 		}
-		diags = append(diags, d...)
+		p.diags = append(p.diags, d...)
 		if file != nil {
-			files = append(files, file)
+			p.files = append(p.files, file)
 		}
 	}
+	return p
+}
+
+func (p *parsedForm) body(f *Form) hcl.Body {
 	var body hcl.Body
-	if len(files) == 1 && !f.Merge {
-		body = files[0].Body
+	if len(p.files) == 1 && !f.Merge {
+		body = p.files[0].Body
 	} else {
-		body = hcl.MergeFiles(files)
+		body = hcl.MergeFiles(p.files)
 	}
 	if f.Expand {
 		body = dynblock.Expand(body, &hcl.EvalContext{})
 	}
-	return body, diags
+	return body
 }
 
-func decodeSpec(f *Form, spec hcldec.Spec) *DecResult {
+func decodeSpec(f *Form, p *parsedForm, spec hcldec.Spec) *DecResult {
 	res := &DecResult{}
-	body, pd := formBody(f)
-	if pd.HasErrors() {
+	if p.diags.HasErrors() {
 		res.Err = true
-		res.Diags = diagStrings(pd)
+		res.Diags = diagStrings(p.diags)
 		return res
 	}
 	res.Parsed = true
-	v, d := hcldec.Decode(body, spec, &hcl.EvalContext{})
+	v, d := hcldec.Decode(p.body(f), spec, &hcl.EvalContext{})
 	res.Err = d.HasErrors()
 	res.Diags = diagStrings(d)
 	res.cv = v
 	return res
 }
 
-func decodeTags(f *Form, lay *goLayout) *DecResult {
+func decodeTags(f *Form, p *parsedForm, lay *goLayout) *DecResult {
 	res := &DecResult{}
-	body, pd := formBody(f)
-	if pd.HasErrors() {
+	if p.diags.HasErrors() {
 		res.Err = true
-		res.Diags = diagStrings(pd)
+		res.Diags = diagStrings(p.diags)
 		return res
 	}
 	res.Parsed = true
 	target := reflect.New(lay.typ)
-	d := gohcl.DecodeBody(body, &hcl.EvalContext{}, target.Interface())
+	d := gohcl.DecodeBody(p.body(f), &hcl.EvalContext{}, target.Interface())
 	res.Err = d.HasErrors()
 	res.Diags = diagStrings(d)
 	res.gv = target.Elem()
